@@ -72,11 +72,16 @@ SEEDS = {
            "the absolute view cached before set_channel (get_sequence_duration, equals, cutoff, ...) and the result read through an abs-based getter"),
  "C03-b": ("C03", "tokenise: the reset `cur_bar_has_notes = False` at the end of a bar moved under `if insert_bar_token:`",
            "insert_bar_token=False and a stateful call containing a note whose last bar ends in silence: the closing clause appends a whole extra bar of rests, later chunks decode one bar late"),
+ "C15-b": ("C15", "normalise_relative: the time signature in force is remembered as the single quotient numerator/denominator and compared on that quotient",
+           "a change between two metres with the same quotient (3/4 to 6/8, 2/2 to 4/4) in the merged family: the second signature is dropped as a repetition"),
+ "C19-b": ("C19", "get_info: the BAR branch advances the clock by `max(cur_bar_capacity_remaining, 0)`; detokenise still advances by the raw (possibly negative) remaining capacity",
+           "a vocabulary-only stream whose rests overfill a bar before its BAR token: every later note is annotated later than detokenise places it"),
  "C17-a": ("C17", "equals: the tick comparison moved into the NOTE_ON branch; time and key signatures are compared by value only",
            "two sequences identical except for the tick of one signature, with no compared event of the channel between the old and the new tick"),
 }
 
 INITIALLY_MISSED = {
+ "C15-b": "caught from the start by C07 (SIG); C15's own check missed it because it only shared the STACK rules of the normaliser; C15 now includes the SIG rules, and SIG names the derived-quantity comparison explicitly",
  "C03-b": "missed by the first version of CLOSE (it only demanded that a bar holding a note is closed); the converse obligation was added: in the state (bar time 0, nothing emitted in the current bar) the closing guard must be definitely false",
  "C09-b": "missed by the first versions of C09 and C06: NOEXT judged only the innermost test of the removal; the rule now checks the whole path condition from the candidate loop to the removal (nothing but the flag, the positive-correction test and a membership test) and C09 includes the NOEXT / NEXT rules",
  "C04-b": "missed by the first version of C04 (the ABS-SORTED rule only looked at AbsoluteSequence's own methods); the rule now also covers every construction of an AbsoluteSequence from a message list and raw writes to a locally built one's list",
